@@ -32,8 +32,17 @@ def main():
             rep = {'deadlock': str(e)}
         except Exception as e:
             import traceback
+            tb = e.__traceback__
+            while tb.tb_next is not None:
+                tb = tb.tb_next
+            code = tb.tb_frame.f_code
+            fn = os.path.abspath(code.co_filename)
+            root_ = os.path.join(os.path.abspath(sc3_path), 'sc3') + os.sep
             rep = {'error': f'{type(e).__name__}: {e}',
                    'tb': traceback.format_exc()[-1500:]}
+            if fn.startswith(root_):
+                # born inside the library: the check reports a violation
+                rep['sc3_origin'] = f'{fn[len(root_):]}:{code.co_name}'
         out.write(json.dumps(rep, default=repr) + '\n')
         out.flush()
     os._exit(0)
